@@ -831,6 +831,7 @@ void exec_plan(const J& plan, int outfd) {
     R.rng.seed((uint64_t)plan["seed"].num() ^ 0x5EED5EED5EEDull);
     rng_reseed((uint64_t)plan["seed"].num() * 0x9E3779B97F4A7C15ull + 12345);
     // config + token dir
+    { extern std::string g_real_root; std::string td = kn["tokendir"].str("/sim/tokens"); g_real_root = td.compare(0, 5, "/sim/") == 0 ? std::string() : td; }
     std::string conf = "directories.tokendir = " + kn["tokendir"].str("/sim/tokens") + "\n";   // a path outside /sim/ = real backing (pass-through)
     const J& cf = kn["conf"];
     bool have_backend = false, have_log = false, have_mech = false;
